@@ -70,6 +70,16 @@ def _run(ck):
         # only nameless nodes are renamed; prefix from the class
         flt = [c for c in H.calls_in(en['body']) if c.get('m') == 'filter']
         ok = len(flt) == 1 and any(x.get('m') == 'is_none' and any(y.get('f') == 'name' for y in walk(x['recv'])) for x in H.calls_in(flt[0]['args'][0]))
+        if not ok:
+            # the same selection spelled inside the loop: `if d.name.is_some() { continue; }` on top, or `if d.name.is_none() { d.name = .. }`
+            asg = [n for n in walk(en['body']) if n.get('k') == 'Assign' and n['l'].get('k') == 'Field' and n['l'].get('f') == 'name']
+            for c in H.calls_in(en['body']):
+                if c.get('m') == 'is_some' and any(y.get('f') == 'name' for y in walk(c['recv'])) and H.selects_by_negated(en, c) == 'continue':
+                    ok = bool(asg)
+                if c.get('m') == 'is_none' and any(y.get('f') == 'name' for y in walk(c['recv'])):
+                    iff = H.parents(en).get(id(c))
+                    if iff is not None and iff.get('k') == 'If' and iff.get('c') is c and asg and all(any(z is a for z in walk(iff['then'])) for a in asg):
+                        ok = True
         ck.ob('R10.1', 'ids-kept-verbatim', ok, L.loc(en['body']), 'generated names only for nodes with name.is_none()')
         bd = L.fn('objtree::ObjectTree::build')
         if bd is not None:
